@@ -88,6 +88,13 @@ UNIT = dict(
          must_fire={'subst:guard_default': 1, 'subst:tpl_dequeue': 2, 'subst:tpl_enqueue_ff': 1, 'subst:storage_ref': 1, 'subst:dtor_call_ref': 1, 'reference': 1, 'subst:ref_alias': 1,
                     'method:acquire': 1, 'method:reclaim': 1, 'method:set_threshold': 1, 'method:dequeue_np': 2, 'method:enqueue_ff': 1,
                     'A_LOAD': 2, 'A_CASW': 1, 'call:successFunc': 1, 'call:emptyFunc': 1}),
+    # the same two functions once more with the retry loop cut by an invariant, for the INT (interference) runs
+    dict(QUEUE, id='do_pop_int', sig=r'auto nikolaev_queue<T, Policies\.\.\.>::do_pop\(SuccessFunc successFunc, EmptyFunc emptyFunc\)',
+         c_sig='static _Bool nq_do_pop_int(struct nq* self, T* successFunc, int emptyFunc)',
+         calls={'successFunc': 'XV_CALL_SUCCESS', 'emptyFunc': 'XV_CALL_EMPTY'}, cut_loops={0: 'POP'},
+         must_fire={'cut_loop': 1, 'A_LOAD': 2, 'A_CASW': 1, 'method:acquire': 1, 'method:reclaim': 1}),
+    dict(QUEUE, id='push_int', sig=r'void nikolaev_queue<T, Policies\.\.\.>::push\(value_type value\)', c_sig='static void nq_push_int(struct nq* self, T value)',
+         cut_loops={0: 'PUSH'}, must_fire={'cut_loop': 1, 'A_LOAD': 2, 'A_CASW': 1, 'A_CAS': 2, 'method:acquire': 1}),
     dict(id='try_pop', file=Q, sig=r'bool nikolaev_queue<T, Policies\.\.\.>::try_pop\(value_type& result\)',
          c_sig='static _Bool nq_try_pop(struct nq* self, T* result_p)', py_pre=lift_lambdas,
          subst=[(r'\bresult\b', '(*result_p)', 'result_ref')], self_calls={'do_pop': 'nq_do_pop'},
@@ -97,8 +104,13 @@ UNIT = dict(
             note=note)
         for op, note in (('node_ctor', 'both node constructors'), ('node_try_push', 'from ANY node state of Inv_N incl. finalized'), ('steal', 'fresh private node'),
                          ('node_dtor', 'from ANY node state'), ('push', 'queue of 1 or 2 nodes in any Inv_N state, tail possibly lagging'),
-                         ('pop', 'queue of 1 or 2 nodes in any Inv_N state'), ('ctor', ''), ('dtor', 'queue of 1 or 2 nodes'))
-        for c, tiers in ((1, ['quick', 'thorough']), (2, ['quick', 'thorough']), (4, ['thorough']))],
+                         ('pop', 'queue of 1 or 2 nodes in any Inv_N state'), ('push_race', 'one full/finalized node; a competing producer links its node between our allocation and our link CAS (interference injected at that point)'), ('ctor', ''), ('dtor', 'queue of 1 or 2 nodes'))
+        for c, tiers in ((1, ['quick', 'thorough']), (2, ['quick', 'thorough']), (4, ['thorough']))
+  ] + [
+    dict(id='pop_int_c2', entry='h_pop_int', mode='INT', defs={'CAP': 2}, unwind=8, cls='unbounded',
+         note='[INT] retry loop cut by invariant (any well-formed queue of <= 2 nodes, symbolic node contents); other threads may link / swing _tail / swing _head + retire between any two atomic accesses'),
+    dict(id='push_int_c2', entry='h_push_int', mode='INT', defs={'CAP': 2}, unwind=8, cls='unbounded', note='[INT] as pop_int_c2'),
+  ],
   obligations={
     'nq.scq.requires': dict(deciding=True, text='every ring operation is called with (entries_per_node, remap_shift), an index < entries_per_node that is outside that ring; enqueue<false,false> only on the never-finalized free ring; set_threshold(3*entries_per_node-1)'),
     'nq.guard.protected': dict(deciding=True, text='a node is dereferenced only through the guard that currently protects it (or while it is still private / in the destructor), never after reclaim or delete'),
@@ -111,17 +123,22 @@ UNIT = dict(
     'nq.push.hand_over': dict(deciding=True, text='when the tail node is full or finalized, push links exactly one new node behind it (holding the value), swings _tail to it and leaves the old node finalized'),
     'nq.pop.empty_iff': dict(deciding=True, text='try_pop returns false iff no node holds a value; result untouched'),
     'nq.pop.takes_first': dict(deciding=True, text='try_pop returns the first value of the abstract content and removes exactly it'),
-    'nq.pop.release_order': dict(deciding=True, text='the popped cell is moved out, destroyed, and only then its index goes back to the free ring'),
+    'nq.pop.destroy_before_release': dict(deciding=True, text='the popped cell is moved out, destroyed, and only then its index goes back to the free ring'),
+    'nq.pop.empty_validated': dict(deciding=True, text='try_pop reports empty only if _next of the head node was null when read after the dequeue on that node had failed'),
     'nq.pop.hand_over': dict(deciding=True, text='do_pop unlinks and retires the head node exactly when it is empty and has a successor; never deletes, never retires the last node or a node holding values'),
     'nq.pop.threshold_reset': dict(deciding=True, text='before a node is declared drained its allocated ring threshold is reset to 3*entries_per_node-1 and dequeue is tried once more'),
     'nq.pop.retire_once': dict(deciding=True, text='reclaim is called on the protected node, once, after _head has been swung away from it'),
     'nq.node.delete_once': dict(deciding=True, text='delete only on a live node that was never published (push) or in the queue destructor, once; push and pop never delete a linked node'),
+    'nq.commit': dict(deciding=True, text='every CAS on _head/_tail expects the node the guard protects (acquired before) and installs the successor read from that node after the acquire (or the node just allocated), release order; the link CAS is on the protected node\'s _next, expects null and installs the new node'),
+    'nq.node.no_leak': dict(deciding=True, text='after push every live node is linked in the list: a private node that lost the link race has been deleted'),
     'nq.own.exactly_once': dict(deciding=True, text='C07: placement-new only into raw cells, ~T only on live cells, each element moved out at most once; per operation the number of constructions / destructions / move-outs is exactly what the operation specifies'),
     'nq.node_dtor.owned_only': dict(deciding=True, text='~node destroys exactly the cells whose index is in the allocated ring, once each (also on a finalized ring)'),
     'nq.ctor.inv': dict(deciding=True, text='nikolaev_queue(): one empty, not finalized node, _head == _tail'),
     'nq.dtor.owns': dict(deciding=True, text='~nikolaev_queue deletes every linked node once and thereby destroys exactly the values still stored'),
   },
-  canaries=['node_ctor.value', 'node_ctor.empty', 'node_push.stored', 'node_push.full', 'node_push.rolled_back', 'steal.done', 'node_dtor.full', 'node_dtor.empty',
-            'node_dtor.finalized', 'push.in_tail_node', 'push.new_node', 'push.rolled_back_then_new_node', 'push.helped_tail', 'pop.took', 'pop.empty', 'pop.node_drained',
+  replays={k: dict(src='replay_nq.cpp') for k in ('nq.push.appends', 'nq.push.rollback', 'nq.push.hand_over', 'nq.pop.empty_iff', 'nq.pop.takes_first', 'nq.pop.hand_over', 'nq.own.exactly_once', 'nq.dtor.owns', 'nq.node_dtor.owned_only', 'nq.inv.preserved')},
+  loop_obligation={'POP': 'nq.inv.preserved', 'PUSH': 'nq.push.rollback'},
+  canaries=['pop_int.took', 'pop_int.empty', 'commit.cas_checked', 'push_int.returned', 'push_int.linked', 'node_ctor.value', 'node_ctor.empty', 'node_push.stored', 'node_push.full', 'node_push.rolled_back', 'steal.done', 'node_dtor.full', 'node_dtor.empty',
+            'node_dtor.finalized', 'push.in_tail_node', 'push.new_node', 'push.rolled_back_then_new_node', 'push.helped_tail', 'push_race.third_node', 'push_race.into_competitor_node', 'pop.took', 'pop.empty', 'pop.node_drained',
             'ctor.done', 'dtor.two_nodes', 'dtor.one_node'],
 )
